@@ -66,6 +66,9 @@ PROPS = {
             f"{MAT}.get_status",
             f"{MAT}.get_status#c04",
             f"{MAT}.calculate_target_power",
+            # ... and what expiry leaves behind: the bucket stays (possibly empty), so the next recalculation sees "no
+            # live proposal" instead of "never had one" and resets the stored target
+            f"{MAT}.drop_old_proposals",
             f"{PM}._base_classes:_Report.adjust_to_bounds",
             "frequenz.sdk.timeseries.battery_pool._battery_pool:BatteryPool.propose_power",
         ],
